@@ -110,8 +110,37 @@ func wApplyDerive(spec *quic.QUICSpec, d *WDerive) error {
 			{MinPING: 0, MaxPING: uint8(p(0, 2)) + 1, MinCRYPTO: 1, MaxCRYPTO: uint8(p(1, 3)) + 2, MinPADDING: 1, MaxPADDING: 3, Length: uint16(p(2, 1180))},
 			{MinPING: 1, MaxPING: 3, MinCRYPTO: 1, MaxCRYPTO: uint8(p(3, 2)) + 2, MinPADDING: 1, MaxPADDING: 2, Length: uint16(p(4, 900))},
 		}}
+	case "flight", "rflight":
+		// a planned flight addressed in absolute offsets: the first datagram carries the tail (last T bytes) and the
+		// head (first A bytes) of the ClientHello, the second one the middle - or everything in one datagram when the
+		// ClientHello is small (p2 = 0)
+		A, T := int(p(0, 600)), int(p(1, 250))
+		rf := quic.QUICRandomFrames{MinPING: 0, MaxPING: uint8(p(3, 2)) + 1, MinCRYPTO: 1, MaxCRYPTO: uint8(p(4, 3)) + 2}
+		if p(2, 0) == 0 {
+			if d.Builder == "flight" {
+				ips.FrameBuilder = &quic.QUICFlightFrames{Datagrams: []quic.QUICFrames{{quic.QUICFrameCrypto{Offset: -T}, quic.QUICFramePing{}, quic.QUICFrameCrypto{Offset: 0, Length: -T}}}}
+			} else {
+				ips.FrameBuilder = &quic.QUICRandomFlightFrames{PerDatagram: []quic.QUICRandomFlightDatagram{{CryptoRanges: []quic.QUICCryptoRange{{Offset: -T}, {Offset: 0, Length: -T}}, Frames: rf}}}
+			}
+		} else if d.Builder == "flight" {
+			ips.FrameBuilder = &quic.QUICFlightFrames{Datagrams: []quic.QUICFrames{
+				{quic.QUICFrameCrypto{Offset: -T}, quic.QUICFrameCrypto{Offset: 0, Length: A}},
+				{quic.QUICFramePing{}, quic.QUICFrameCrypto{Offset: A, Length: -T}},
+			}}
+		} else {
+			ips.FrameBuilder = &quic.QUICRandomFlightFrames{PerDatagram: []quic.QUICRandomFlightDatagram{
+				{CryptoRanges: []quic.QUICCryptoRange{{Offset: -T}, {Offset: 0, Length: A}}, Frames: rf},
+				{CryptoRanges: []quic.QUICCryptoRange{{Offset: A, Length: -T}}, Frames: rf},
+			}}
+		}
 	default:
 		return fmt.Errorf("unknown builder %q", d.Builder)
+	}
+	if len(d.Plans) > 0 {
+		ips.InitialPackets = nil
+		for i := 0; i+1 < len(d.Plans); i += 2 {
+			ips.InitialPackets = append(ips.InitialPackets, quic.InitialPacketPlan{CryptoLength: d.Plans[i], PacketSize: d.Plans[i+1]})
+		}
 	}
 	if d.InitPN != 0 {
 		ips.InitPacketNumber = uint64(d.InitPN)
